@@ -171,16 +171,19 @@ class State:
         return n
 
 
-def explore(run, max_paths: int = 4000):
+def explore(run, max_paths: int = 4000, prefixes=None, split_at: int = 0, budget: int = 0):
     """Enumerate all paths of `run(state)` by replaying decision prefixes.
 
-    `run` must be deterministic given the decision log. Returns list of (state, outcome)."""
+    `run` must be deterministic given the decision log. Returns (list of (state, outcome), unexplored frontier)."""
     from . import values
+    from collections import deque
 
-    work: list[list[bool]] = [[]]
+    work = deque([list(p) for p in prefixes] if prefixes is not None else [[]])
     out = []
     while work:
-        prefix = work.pop()
+        if (split_at and len(work) >= split_at) or (budget and len(out) >= budget):
+            return out, [list(w) for w in work]
+        prefix = work.popleft() if split_at else work.pop()
         values._fresh = itertools.count(1)
         st = State(prefix)
         try:
@@ -194,4 +197,4 @@ def explore(run, max_paths: int = 4000):
             from .values import Unsupported
 
             raise Unsupported(f"more than {max_paths} paths")
-    return out
+    return out, []
